@@ -73,7 +73,7 @@ theorem commitBlockTxs_undo (s : St) (b : Block) (hu : UndoUpTo s.d s.n.lastHeig
 
 /-! ### UndoLastBlock -/
 
-theorem undoLast_K (hwf : WF bs) (hj : JD bs s) {path : List Block} (hc : Chain bs s.n path) (hne : path ≠ []) (hk : K0 s) :
+theorem undoLast_K (_hwf : WF bs) (_hj : JD bs s) {path : List Block} (hc : Chain bs s.n path) (hne : path ≠ []) (hk : K0 s) :
     (undoLastBlock s).err = none ∧ Fr s (undoLastBlock s) ∧ (undoLastBlock s).n.lastHeight ≤ s.n.lastHeight := by
   obtain ⟨b0, rest, rfl⟩ : ∃ b0 rest, path = b0 :: rest := by
     cases path with
@@ -235,10 +235,8 @@ theorem moveToBlock_K (hwf : WF bs) (hj : JD bs s) {path : List Block} (hc : Cha
     unfold fuelOf; omega
   obtain ⟨p, hp⟩ := pathUp_some hwf j2 hpd2 j' (fuelOf s.n) 0 [] (Nat.zero_le _) hfuel2
   rw [hdst0, ← hancd] at hp
-  have hfo : fuelOf ((undoN s (min i' path.length)).emit .nop .moveUndone).n = fuelOf s.n := by
-    unfold fuelOf; rw [hN.tree, t1]
   rw [if_neg (by simp [a1])]
-  simp only [hfo, hp]
+  simp only [hp]
   have hdn := pathUp_down j2 _ _ _ [] p (Or.inr (by show InT (undoN s (min i' path.length)).n.tree dst; rw [t1]; exact hdst)) trivial hp
   have hD : Down ((undoN s (min i' path.length)).emit .nop .moveUndone).n.tree (headId path1) p := by
     rw [hp1, ← hanc]; exact hdn.1
